@@ -57,11 +57,12 @@ func (g *GroupResult) HasTag(t string) bool {
 }
 
 type TypeInfo struct {
-	Name   string `json:"name"`
-	File   string `json:"file"`
-	Pkg    string `json:"pkg"`
-	Fields int    `json:"fields"`
-	GoType string `json:"gotype"`
+	Name   string   `json:"name"`
+	File   string   `json:"file"`
+	Pkg    string   `json:"pkg"`
+	Fields int      `json:"fields"`
+	GoType string   `json:"gotype"`
+	Names  []string `json:"names"`
 }
 
 type Scratch struct {
